@@ -248,9 +248,103 @@ def _replay_real(through_load_git, n, ref, code):
         subprocess.run([sys.executable, "-c", code_src], capture_output=True, text=True, env=env, cwd=d, timeout=120)
         after = state()
         tmp_after = set(os.listdir(tempfile.gettempdir()))
-        leftovers = [x for x in tmp_after - tmp_before if x.startswith("griffe-worktree-")]
+        # (other checks run in parallel and create their own temporary checkouts: only this repository's count)
+        leftovers = [x for x in tmp_after - tmp_before if x.startswith("griffe-worktree-" + os.path.basename(d) + "-")]
         if before != after or leftovers:
             return True, f"real git: branches/worktrees/status/HEAD before {before} after {after}; temp leftovers {leftovers}"
         return False, "real git run leaves the repository unchanged"
     finally:
         shutil.rmtree(d, ignore_errors=True)
+
+
+# ================================================================================ returned objects stay usable (real git, real files)
+SRC_CORE = '"""Module docstring."""\n\n\ndef compute(a, b=0):\n    """Compute something.\n\n    The old way.\n    """\n    return a + b\n\n\nclass Thing:\n    """A thing."""\n\n    def method(self):\n        return 1\n'
+LINK_LAYOUTS = ["plain", "module-symlink", "package-dir-symlink", "search-path-symlink"]
+
+
+def _sources_case(layout, via_src, dirty):
+    """Build a real repository (outside /repo and /verif), tag v1, run the real load_git, and compare the source lines of every
+    object - read AFTER load_git returned, i.e. after the temporary checkout was removed - with `git show v1:<file>`."""
+    d = tempfile.mkdtemp(prefix="verif_c20s_")
+    env = dict(os.environ, GIT_AUTHOR_NAME="t", GIT_AUTHOR_EMAIL="t@t", GIT_COMMITTER_NAME="t", GIT_COMMITTER_EMAIL="t@t", HOME=d)
+
+    def git(*a):
+        return subprocess.run(["git", "-C", d, *a], capture_output=True, text=True, env=env)
+
+    try:
+        git("init", "-q", "-b", "main")
+        base = "src" if via_src else "."
+        os.makedirs(os.path.join(d, "lib", "pkg"))
+        os.makedirs(os.path.join(d, base), exist_ok=True)
+        Path(d, "lib", "pkg", "__init__.py").write_text("from pkg.core import compute\n")
+        Path(d, "lib", "pkg", "core.py").write_text(SRC_CORE)
+        if layout == "plain":
+            search = "lib"
+        elif layout == "module-symlink":
+            os.symlink("core.py", os.path.join(d, "lib", "pkg", "compat.py"))  # pkg/compat.py -> core.py
+            search = "lib"
+        elif layout == "package-dir-symlink":
+            os.symlink(os.path.relpath(os.path.join(d, "lib", "pkg"), os.path.join(d, base)), os.path.join(d, base, "pkg") if base != "." else os.path.join(d, "pkg"))
+            search = base
+        else:
+            os.symlink("lib", os.path.join(d, "linked"))  # the search path itself is a link
+            search = "linked"
+        git("add", "-A")
+        git("commit", "-q", "-m", "one")
+        git("tag", "v1")
+        Path(d, "lib", "pkg", "core.py").write_text("# changed after the tag\n")  # the working tree differs from the tag: sources must come from the checkout of v1
+        before = (git("branch", "--list").stdout, git("worktree", "list").stdout, git("status", "--porcelain").stdout, git("rev-parse", "HEAD").stdout)
+        cwd = os.getcwd()
+        os.chdir(d)
+        try:
+            pkg = L.load_git("pkg", ref="v1", repo=d, search_paths=[search], force_inspection=False, allow_inspection=dirty)
+        finally:
+            os.chdir(cwd)
+        after = (git("branch", "--list").stdout, git("worktree", "list").stdout, git("status", "--porcelain").stdout, git("rev-parse", "HEAD").stdout)
+        if before != after:
+            return f"{layout}: repository changed by load_git: {before} -> {after}"
+        want = git("show", "v1:lib/pkg/core.py").stdout.splitlines()
+        mods = ["core"] + (["compat"] if layout == "module-symlink" else [])
+        for mn in mods:
+            mod = pkg[mn]
+            if mod.lines != want:
+                return f"{layout}: source lines of module pkg.{mn} lost or wrong after the checkout was removed: {mod.lines[:2]!r}..."
+            fn = mod["compute"]
+            if fn.source != "\n".join(want[fn.lineno - 1 : fn.endlineno]):
+                return f"{layout}: pkg.{mn}.compute.source is {fn.source!r} after the checkout was removed"
+            meth = mod["Thing.method"]
+            if meth.lines != want[meth.lineno - 1 : meth.endlineno]:
+                return f"{layout}: pkg.{mn}.Thing.method.lines lost after the checkout was removed"
+            try:
+                ds = fn.docstring.source
+            except Exception as e:  # noqa: BLE001
+                return f"{layout}: pkg.{mn}.compute.docstring.source raised {type(e).__name__}: {e}"
+            if "Compute something." not in ds:
+                return f"{layout}: pkg.{mn}.compute.docstring.source is {ds!r}"
+        return None
+    finally:
+        shutil.rmtree(d, ignore_errors=True)
+
+
+@obligation(
+    pid="C20", name="sources_survive", timeout=tiered(200, 600), path_timeout=120.0,
+    shards=lambda: [(f"layout={lay}", None, [dict(layout=lay)]) for lay in LINK_LAYOUTS],
+    pre=lambda layout, via_src, allow: True,
+    drives=[L.load_git, GIT.tmp_worktree],
+    bounds={"repository": "lib/pkg/{__init__.py, core.py}, tag v1, working tree modified after the tag", "layouts": LINK_LAYOUTS, "search path": "lib / src / . / a symlink to lib", "inspection": "allowed or not (nothing needs it)"},
+    value_symbolic=["via_src (where the package link lives)", "allow_inspection"], selectors=["symlink layout (driver-bound)"],
+    stubs=["none: real git, real files in a scratch directory outside /repo and /verif; the solver's choices are realised before the run"],
+    assumptions=["case analysis: nothing symbolic survives the file-system / git boundary; the engine certifies that every (layout, flag) combination was run"],
+    must_cover=["sources-read-after-removal"],
+    grid=lambda seed: [dict(layout=lay, via_src=v, allow=True) for lay in LINK_LAYOUTS for v in (False, True)],
+)
+def sources_survive(layout: str, via_src: bool, allow: bool) -> bool:
+    """Objects returned by load_git keep their module/function/method source lines and docstring sources after the temporary checkout is gone, symlinks or not."""
+    via_src, allow = realize_value(via_src), realize_value(allow)
+    from harness.C08_json import _native
+
+    err = _native(_sources_case, layout, via_src, allow)
+    if err:
+        return fail(err)
+    cover("sources-read-after-removal")
+    return True
